@@ -96,16 +96,40 @@ func bounds(net uint32) []uint64 {
 
 func genOffset(r *hx.Rand, net uint32) uint64 {
 	b := bounds(net)
-	switch r.Intn(10) {
-	case 0, 1, 2, 3, 4:
-		return b[r.Intn(len(b))]
+	ni := deadlines(net)
+	near := func(v uint64) uint64 { // v-3 .. v+3, clipped
+		x := int64(v) + int64(r.Intn(7)) - 3
+		if x < 0 {
+			x = 0
+		}
+		return uint64(x) & maxU32
+	}
+	switch r.Intn(12) {
+	case 0, 1: // holder phase (empty on the default network)
+		if ni.d > 0 {
+			if r.Bool() {
+				return uint64(r.Intn(int(ni.d) + 1))
+			}
+			return near(uint64(r.Intn(3)) * uint64(utils.TIME_INTERVAL))
+		}
+		return uint64(r.Intn(5))
+	case 2:
+		return near(ni.d)
+	case 3, 4:
+		return near(ni.dl)
 	case 5:
-		ni := deadlines(net)
 		c := []uint64{ni.d, ni.dl, ni.dl + 1, ni.d + 1}
 		return c[r.Intn(len(c))] & maxU32
-	case 6:
+	case 6, 7:
+		return b[r.Intn(len(b))]
+	case 8:
 		return (b[r.Intn(len(b))] + uint64(r.Intn(100000))) & maxU32
-	case 7:
+	case 9: // governance phase, uniform
+		if ni.dl > ni.d {
+			return ni.d + uint64(r.Intn(int(ni.dl-ni.d)))
+		}
+		return uint64(r.Intn(20*31536000 + 5))
+	case 10:
 		return uint64(r.Intn(20*31536000 + 5))
 	default:
 		return r.U64() & maxU32
@@ -131,7 +155,9 @@ func genBal(r *hx.Rand) uint64 {
 
 func gen(r *hx.Rand, tier string, i int) string {
 	var net uint32
-	if r.Chance(85) {
+	if r.Chance(60) {
+		net = uint32(1 + r.Intn(2)) // the two networks with a holder phase
+	} else if r.Chance(70) {
 		net = nets[r.Intn(len(nets))]
 	} else {
 		net = uint32(r.Intn(300))
